@@ -544,9 +544,11 @@ Proof.
   assert (EL : len (hd ++ qp ++ pp) = 20 + len (qp ++ pp)) by (rewrite len_app; unfold len at 1; rewrite Ehd; reflexivity).
   rewrite <- (app_assoc hd).
   erewrite parse_data_fst with (o2q := 20) (s1 := (qp ++ pp) ++ rest) (qos := if q then map pad_param qos else []) (rest := pp).
-  - rewrite Ff1, Ff2, Ff3, Ff4. fold pp. reflexivity.
+  - rewrite Ff1, Ff2, Ff3, Ff4. unfold pp. destruct d, k; reflexivity.
   - rewrite app_assoc. apply shorter_app_false. lia.
-  - rewrite Fle. unfold hd. rewrite <- !app_assoc.
+  - rewrite Fle.
+    match goal with |- fst (?p (hd ++ ?r)) = _ => assert (G : rd p hd (20, rid, wid, sn)) end; [|apply G].
+    unfold hd.
     eapply rd_bind; [apply rd_u16|]. eapply rd_bind; [apply rd_u16|].
     eapply rd_bind; [apply rd_eid; exact H1|]. eapply rd_bind; [apply rd_eid; exact H2|].
     change (16 mod 65536 + 4) with 20.
@@ -556,7 +558,7 @@ Proof.
   - pose proof (len_nonneg _ (qp ++ pp)). destruct (Z.eqb_spec (len (hd ++ qp ++ pp)) 0); [lia|].
     rewrite Ff1, Fle.
     replace (len (hd ++ qp ++ pp)) with (len hd + len (qp ++ pp)) by (rewrite len_app; reflexivity).
-    rewrite app_assoc, <- (app_assoc hd), region_exact by (rewrite ?Ehd; lia || reflexivity).
+    rewrite region_exact by (rewrite ?Ehd; lia || reflexivity).
     unfold qp. destruct q.
     + apply rd_param_list; [exact H4|]. fold qp. rewrite len_app in EL, HL. pose proof (len_nonneg _ pp). lia.
     + reflexivity.
@@ -585,7 +587,9 @@ Proof.
   - rewrite Ff1, Ff2, Ff3. reflexivity.
   - rewrite app_assoc. apply shorter_app_false. lia.
   - rewrite app_assoc. apply shorter_app_false. pose proof (len_nonneg _ (qp ++ pl)). lia.
-  - rewrite Fle. unfold hd. rewrite <- !app_assoc.
+  - rewrite Fle.
+    match goal with |- fst (?p (hd ++ ?r)) = _ => assert (G : rd p hd (32, rid, wid, sn, fs, fc, fz, ds)) end; [|apply G].
+    unfold hd.
     eapply rd_bind; [apply rd_u16|]. eapply rd_bind; [apply rd_u16|].
     eapply rd_bind; [apply rd_eid; exact H1|]. eapply rd_bind; [apply rd_eid; exact H2|].
     eapply rd_bind; [apply rd_sn; exact H3|]. eapply rd_bind; [apply rd_u32_in; exact H4|].
@@ -597,7 +601,7 @@ Proof.
   - pose proof (len_nonneg _ (qp ++ pl)). destruct (Z.eqb_spec (len (hd ++ qp ++ pl)) 0); [lia|].
     rewrite Ff1, Fle.
     replace (len (hd ++ qp ++ pl)) with (len hd + len (qp ++ pl)) by (rewrite len_app; reflexivity).
-    rewrite app_assoc, <- (app_assoc hd), region_exact by (rewrite ?Ehd; lia || reflexivity).
+    rewrite region_exact by (rewrite ?Ehd; lia || reflexivity).
     unfold qp. destruct q.
     + apply rd_param_list; [exact H8|]. fold qp. rewrite len_app in EL, HL. pose proof (len_nonneg _ pl). lia.
     + reflexivity.
